@@ -119,7 +119,8 @@ func runC15(cx *Ctx, r *Report) {
 					}
 				}
 				idT := keyArg(keyT, 0)
-				fresh := strings.Contains(idT, "mt/keeper.Keeper.genDenomID") || strings.Contains(idT, "Sequence")
+				fresh := strings.Contains(idT, "mt/keeper.Keeper.genDenomID") || strings.Contains(idT, "Sequence") ||
+					cx.termReads(keyArgT(keyT, 0), func(px string) bool { return strings.Contains(px, "Sequence") })
 				r.check(owner == signer && fresh, "creator-is-signer", e.Name+"|class", pos, "new class (id from the sequence) records owner = "+owner, "class record built with owner "+owner+" / id "+idT+" (expected the declared signer and a fresh sequence id)")
 				return
 			}
@@ -245,4 +246,50 @@ func tokenOf(d *mtDelta) string {
 		return "?"
 	}
 	return c.Args[n-2].LooseString() + "/" + c.Args[n-1].LooseString()
+}
+
+func keyArgT(key *Term, i int) *Term {
+	c := findSub(key, func(t *Term) bool { return t.Op == "call" && strings.Contains(t.Name, "types.Key") })
+	if c == nil || i >= len(c.Args) {
+		return nil
+	}
+	return c.Args[i]
+}
+
+// termReads: the term contains a call of an irismod function that (transitively) reads a
+// key whose prefix satisfies pred.
+func (cx *Ctx) termReads(t *Term, pred func(prefix string) bool) bool {
+	if t == nil {
+		return false
+	}
+	return findSub(t, func(s *Term) bool {
+		if s.Op != "call" || s.src == nil {
+			return false
+		}
+		c := s.src
+		f := c.Common().StaticCallee()
+		if f == nil || !isIrismodFunc(f) {
+			return false
+		}
+		for _, g := range cx.Reachable([]*ssa.Function{f}, nil).Order {
+			if g.Blocks == nil {
+				continue
+			}
+			for _, p := range cx.primsOf(g) {
+				if p.Kind != "store.get" {
+					continue
+				}
+				px := p.Prefix
+				if len(px) != 1 {
+					px = cx.storeKeyPrefixIn(p.Site, p.Kind, nil)
+				}
+				for _, q := range px {
+					if pred(q) {
+						return true
+					}
+				}
+			}
+		}
+		return false
+	}) != nil
 }
